@@ -170,6 +170,14 @@ structure Inv (s : State) : Prop where
   /-- the record of an add that has written is the one it will be inserted with -/
   pendrec : ∀ q ∈ s.pending, q.stage = .written → (q.id, freshFields q.m q.o q.port) ∈ s.db
 
+/-- The part of the invariant about records that did not load (histories that are `tame`). -/
+structure DInv (s : State) : Prop where
+  /-- `invalidTorrentIDs` lists exactly the records that are in the bucket without having loaded -/
+  inv : s.invalid = s.deadIds
+  /-- no registered torrent and no add in flight has an invalid id -/
+  fresh : ∀ id ∈ s.invalid, id ∉ s.regIds ∧ id ∉ s.pendIds
+  nodup : s.deadIds.Nodup
+
 theorem Inv.dbIds_perm {s : State} (h : Inv s) :
     s.dbIds.Perm (s.regIds ++ (written s.pending).map (·.id)) := by
   have := h.dbsig.map Prod.fst
@@ -190,5 +198,28 @@ theorem Inv.dbIds_nodup {s : State} (h : Inv s) : s.dbIds.Nodup := by
 
 theorem init_inv (lo hi : Nat) : Inv (init lo hi) := by
   refine ⟨?_, ?_, ?_, ?_, ?_, ?_⟩ <;> simp [init, State.range, State.regIds, State.pendIds, written]
+
+theorem init_dinv (lo hi : Nat) : DInv (init lo hi) := by
+  refine ⟨?_, ?_, ?_⟩ <;> simp [init, State.deadIds]
+
+/-- An id of the database is the id of a registered torrent or of an add in flight. -/
+theorem Inv.dbId_live {s : State} (h : Inv s) {id : String} (hid : id ∈ s.dbIds) : id ∈ s.regIds ∨ id ∈ s.pendIds := by
+  rcases List.mem_append.1 ((h.dbIds_perm.mem_iff).1 hid) with h1 | h1
+  · exact Or.inl h1
+  · exact Or.inr (((written_sublist _).map _).subset h1)
+
+theorem DInv.not_db {s : State} (h : Inv s) (hd : DInv s) {id : String} (hid : id ∈ s.invalid) : id ∉ s.dbIds := by
+  intro hc
+  obtain ⟨h1, h2⟩ := hd.fresh id hid
+  exact (h.dbId_live hc).elim h1 h2
+
+/-- The torrents bucket has one sub-bucket per id. -/
+theorem bucket_nodup {s : State} (h : Inv s) (hd : DInv s) : ((s.db ++ s.dead).map (·.1)).Nodup := by
+  rw [List.map_append]
+  refine List.nodup_append.2 ⟨h.dbIds_nodup, hd.nodup, ?_⟩
+  intro a ha b hb hab
+  subst hab
+  have : a ∈ s.invalid := by rw [hd.inv]; exact hb
+  exact hd.not_db h this ha
 
 end Rain.Registry
